@@ -56,7 +56,22 @@ def ob_graph(ctx):
 
     mods = [Mod(rec(i, "ACGT"), st.Seq(starts[i]), st.Seq(ends[i]),
                 (lambda i=i: st.SeqRecord(st.Seq(starts[i] + MARK[i]), id="<unknown id>" if P.get("same_ids") else "m%d" % i))) for i in range(m)]
-    vec = Vec(rec(-1, "ACGT"), st.Seq(up), st.Seq(down), lambda: st.SeqRecord(st.Seq(up + "TTTT"), id="vec"))
+    if P.get("real_vector"):
+        # the vector is a real generic vector typed from its plasmid (filed at any origin): its two overhangs are read by
+        # the real structure match; the graph is still what decides the outcome
+        from .c01 import cat, rot, only_sites
+        from .rblock import Geometry, generic_class
+
+        g = Geometry(st.enzyme(P["real_vector"]))
+        off = g.lo - g.L
+        vd = cat(up, "TTTT", down, ctx.mk.seq("vy", off, "ACGT"), g.rsite, ctx.mk.seq("vp", 2, "ACGT"), g.site,
+                 ctx.mk.seq("vx", off, "ACGT"))
+        rpos = k + 4 + k + off
+        only_sites(ctx, vd, slen(vd), g, {("r", rpos), ("f", rpos + g.L + 2)})
+        vd = rot(vd, P["lo"] + ctx.mk.pick("rho", P["hi"] - P["lo"]))
+        vec = generic_class(st, "vector", P["real_vector"])(st.record.CircularRecord(st.Seq(vd), id="vec"))
+    else:
+        vec = Vec(rec(-1, "ACGT"), st.Seq(up), st.Seq(down), lambda: st.SeqRecord(st.Seq(up + "TTTT"), id="vec"))
     out = run_assemble(st, vec, mods)
     ctx.observe("kind", out["kind"])
     ref = reference_walk(ucodes(up, k), ucodes(down, k), [ucodes(s, k) for s in starts], [ucodes(e, k) for e in ends], k)
@@ -115,6 +130,19 @@ def ob_graph(ctx):
 
 def obligations(tier, seed):
     obs = []
+    from Bio import Restriction
+    from .rblock import Geometry
+
+    for e in tier_pick(tier, ["BsaI"], ["BsaI", "SapI"]):
+        g = Geometry(getattr(Restriction, e))
+        nv = g.ovl + 4 + g.ovl + (g.lo - g.L) + g.L + 2 + g.L + (g.lo - g.L)
+        chunks = 4
+        step = (nv + chunks - 1) // chunks
+        for lo in range(0, nv, step):
+            hi = min(nv, lo + step)
+            obs.append(Ob("overhang graph m=1 with a real %s vector filed at origin %d..%d" % (e, lo, hi - 1), ob_graph,
+                          dict(m=1, k=g.ovl, perm="rot", real_vector=e, lo=lo, hi=hi), samples=6, cost=nv * (hi - lo) * 20,
+                          group="real vector %s" % e))
     combos = [(1, 2), (2, 2), (3, 2), (4, 2)] if tier == "quick" else \
         [(1, 1), (2, 1), (3, 1), (1, 2), (2, 2), (3, 2), (4, 2), (5, 2), (1, 3), (2, 3), (3, 3), (1, 4), (2, 4), (3, 4), (4, 4)]
     for m, k in combos:
